@@ -365,6 +365,16 @@ def check(run):
                 elif d['state'] == 'defeated':
                     want.add(('Defeated', names[cid], v))
             if got != want:
+                # the report groups defeated candidates whose tally the arithmetic itself considers equal to zero under one
+                # "(0)" entry; under guarded arithmetic that includes tallies within the tolerance of zero
+                zero = str(E.V0)
+                for cid, d in cst.items():
+                    if d['state'] == 'defeated' and method != 'qpq' and cfg.cmp(raw(d['vote']), 0) == 0:
+                        entry = ('Defeated', names[cid], str(d['vote']))
+                        if entry in want and entry not in got and ('Defeated', names[cid], zero) in got:
+                            want.discard(entry)
+                            want.add(('Defeated', names[cid], zero))
+            if got != want:
                 bad('report-status-lines', 'report shows %s, record says %s' % (sorted(got ^ want)[:4], 'the opposite side of these'), ai_)
         # totals
         ev = evs[ai_]
